@@ -229,6 +229,34 @@ def check_supply_laws(rep, crate, sib_only=False):
                'service_time(d) is the smallest such t (with SUP-LIP: provided_service is non-decreasing)',
                'a longer service_time is pessimistic and breaks exactness (C06/C07)', direction='pessimistic-only: service_time longer than necessary')
         n += 6
+        # ---- SUP-SHAPE: the function is the supply of the worst-case budget placement, clause by clause
+        f = fields.get(name) or {}
+        if name == 'Dedicated':
+            _judge(rep, 'SUP-SHAPE', 'SUP-SHAPE:Dedicated', wps, m['ps'], LA.equal_under(ps, [([], ARG)], A),
+                   'provided_service(delta) = delta', 'a dedicated processor serves every time unit', 'anything else is not a dedicated processor')
+            n += 1
+        elif 'budget' in f and 'period' in f:
+            B, P = f['budget'], f['period']
+            D = f.get('deadline', P)
+            bo = T.add(T.sub(P, B), T.sub(D, B))        # the longest blackout: budget at the very start of one period, then at the very end of the next deadline window
+            d_bo = T.sub(ARG, bo)
+            shape = [
+                ('blackout', [d_bo], [([], T.const(0))],
+                 'delta <= (P - B) + (D - B)  =>  provided_service(delta) = 0', 'no service during the longest blackout'),
+                ('ramp', [T.neg(d_bo), T.sub(d_bo, B)], [([], d_bo)],
+                 '(P - B) + (D - B) <= delta <= blackout + B  =>  provided_service(delta) = delta - blackout', 'then one unit of service per time unit while the budget lasts'),
+                ('plateau', [T.sub(B, d_bo), T.sub(d_bo, P)], [([], B)],
+                 'blackout + B <= delta <= blackout + P  =>  provided_service(delta) = B', 'then nothing until the next budget'),
+            ]
+            for tag, extra, want, law, means in shape:
+                _judge(rep, 'SUP-SHAPE', f'SUP-SHAPE:{name}:{tag}', wps, m['ps'], LA.holds_between(ps, want, A + extra, 0, 0, steps=True), law, means,
+                       'C09: the closed form must equal the supply under the worst-case placement of the budget on the first period ..')
+            later = lin_cases(crate, m['ps'], {P1: T.add(ARG, P)})[0]
+            shifted = [(g, T.add(v, B)) for g, v in ps]
+            _judge(rep, 'SUP-SHAPE', f'SUP-SHAPE:{name}:periodic', wps, m['ps'], LA.holds_between(shifted, later, A + [T.neg(d_bo)], 0, 0, steps=True),
+                   'delta >= blackout  =>  provided_service(delta + P) = provided_service(delta) + B', 'after the first blackout the pattern repeats with the period',
+                   '.. and repeat it: with the three clauses above this determines provided_service for every delta (induction on the number of periods)')
+            n += 4
     # reductions between the models
     if 'Constrained' in fields and 'Periodic' in fields and 'Constrained' in wf and 'Periodic' in wf and 'deadline' in fields['Constrained']:
         fc, fp = fields['Constrained'], fields['Periodic']
